@@ -109,6 +109,24 @@ impl<T: Clone> Key<T> {
     }
 }
 
+#[cfg(litep2p_verif)]
+impl<T: Clone> Key<T> {
+    /// Key with chosen raw bytes (verification seam).
+    pub fn verif_from_raw(preimage: T, bytes: [u8; 32]) -> Key<T> {
+        Key {
+            preimage,
+            bytes: KeyBytes(Array::from(bytes)),
+        }
+    }
+
+    /// Raw bytes of the key (verification seam).
+    pub fn verif_raw(&self) -> [u8; 32] {
+        let mut out = [0u8; 32];
+        out.copy_from_slice(self.bytes.0.as_slice());
+        out
+    }
+}
+
 impl<T: Clone> From<Key<T>> for KeyBytes {
     fn from(key: Key<T>) -> KeyBytes {
         key.bytes
